@@ -561,6 +561,25 @@ impl HttpContext {
         // so the postcondition can pin "blocks only grow" for the whole edit.
         let blocks_at_entry = request.blocks.len();
 
+        // RFC 9112 §6.3: an HTTP/1.x request with neither Transfer-Encoding
+        // nor Content-Length has no body. Kawa leaves it in the close-delimited
+        // `Body` phase (which only exists for responses) and would swallow the
+        // pipelined requests that follow as its body, forwarding them unparsed
+        // to the backend. H2 requests (`Version::V20`) are framed by END_STREAM
+        // in `pkawa::handle_header`, after this callback.
+        if request.body_size == kawa::BodySize::Empty
+            && matches!(
+                request.detached.status_line,
+                kawa::StatusLine::Request {
+                    version: kawa::Version::V10 | kawa::Version::V11,
+                    ..
+                }
+            )
+        {
+            request.body_size = kawa::BodySize::Length(0);
+            request.parsing_phase = kawa::ParsingPhase::Terminated;
+        }
+
         let buf = request.storage.mut_buffer();
 
         // Captures the request line
